@@ -649,6 +649,9 @@ impl Lua {
                     total += 24;
                 }
             }
+            if total > crate::lstrlib::MAX_STRING {
+                return Err(self.make_error(crate::interp::ErrorKind::Budget, Value::str(b"not enough memory")));
+            }
             let mut out: Vec<u8> = Vec::with_capacity(total);
             for v in &self.stack[start..] {
                 match v {
@@ -670,6 +673,9 @@ impl Lua {
             self.stack.truncate(top - 2);
             let r = match (basic_text(&a), basic_text(&b)) {
                 (Some(mut x), Some(y)) => {
+                    if x.len() + y.len() > crate::lstrlib::MAX_STRING {
+                        return Err(self.make_error(crate::interp::ErrorKind::Budget, Value::str(b"not enough memory")));
+                    }
                     x.extend_from_slice(&y);
                     Value::bytes(x)
                 }
@@ -749,7 +755,7 @@ pub fn tostring_plain(v: &Value) -> String {
         Value::Str(s) => String::from_utf8_lossy(s).into_owned(),
         Value::Table(_) => format!("table: 0x{:08x}", v.addr()),
         Value::Func(_) => format!("function: 0x{:08x}", v.addr()),
-        Value::Native(_) | Value::NativeC(_) => format!("function: builtin: 0x{:08x}", v.addr()).replace("builtin: ", ""),
+        Value::Native(_) | Value::NativeC(_) => format!("function: 0x{:08x}", v.addr()),
         Value::Cell(_) => "cell".to_string(),
     }
 }
